@@ -209,6 +209,10 @@ fn replay_history(j: &Value) -> i32 {
     let quiet = events.len() > 400;
     let mut rep = report::Report::new();
     println!("scanner={} timeout_ns={} events={}", scanner, case["timeout_ns"], events.len());
+    // monitors create their scanner alternately with new() and default(): replay both ways
+    for by_default in [false, true] {
+    scan::force_construction(Some(by_default));
+    println!("-- scanner created with {}", if by_default { "default()" } else { "new()" });
     match scanner.as_str() {
         "cc14" => {
             let mut m = scan::Cc14Mon::new();
@@ -244,6 +248,8 @@ fn replay_history(j: &Value) -> i32 {
             return 2;
         }
     }
+    }
+    scan::force_construction(None);
     let ctx = mon::take_ctx();
     for v in &rep.violations {
         println!("MONITOR FIRED: {} -- {}", v.sig, v.desc);
